@@ -100,7 +100,7 @@ func firstNonSpacePosition(tok token) *ast.Position {
 		default:
 			_, n := utf8.DecodeRune(tok.txt[i:])
 			pos.Start += i
-			pos.End = pos.Start + n
+			pos.End = pos.Start + n - 1
 			return &pos
 		}
 	}
